@@ -253,6 +253,14 @@ Theorem C10_load_traversal_complete :
 Proof. exact Traverse.traversal_complete. Qed.
 Print Assumptions C10_load_traversal_complete.
 
+(* ... and the directory it gets is exactly the model directory, whatever extra external_data entries (basepath,
+   checksum, unknown keys) the model file carries for that tensor. *)
+Theorem C10_load_assigns_model_dir_regardless_of_entries :
+  forall (B E : Type) (model_dir old : B) m t (e : E),
+  Traverse.occ_model m t -> snd t = true -> Traverse.base_after_load model_dir m t old e = model_dir.
+Proof. exact @Traverse.load_assigns_model_dir. Qed.
+Print Assumptions C10_load_assigns_model_dir_regardless_of_entries.
+
 Example C10_traversal_example :
   let deep := Traverse.Graph [(7%N, true)] [Traverse.Node [Traverse.ATensors [(8%N, true); (9%N, false)]]] in
   let m := Traverse.mkModel (Traverse.Graph [(1%N, true)] [Traverse.Node [Traverse.AGraphs [Traverse.Graph [] [Traverse.Node [Traverse.AGraph deep]]]; Traverse.ATensor (2%N, true)]])
